@@ -36,10 +36,15 @@ def models_hash(container_header):
     h = hashlib.sha256()
     mm = os.path.join(VERIF, 'cstl', 'cstl_mmap.h')
     uses_mm = b'"cstl_mmap.h"' in container_header
+    # likewise contracts/lfu_base.h is included by the specifications of lfu_cache and lfuda_cache only (the two containers
+    # with a use-count multimap m_lfu_list): the other containers keep the bytes their results were computed with
+    lb = os.path.join(VERIF, 'contracts', 'lfu_base.h')
+    uses_lb = b'm_lfu_list' in container_header
     for p in sorted(files_under(os.path.join(VERIF, 'cstl')) + files_under(os.path.join(VERIF, 'contracts'), {'.h'})):
         h.update(p.encode())
         h.update(b'\0')
-        h.update(file_bytes(os.path.join(VERIF, 'lib', 'frozen', 'cstl_mmap.h.v1')) if (p == mm and not uses_mm) else file_bytes(p))
+        h.update(file_bytes(os.path.join(VERIF, 'lib', 'frozen', 'cstl_mmap.h.v1')) if (p == mm and not uses_mm) else
+                 file_bytes(os.path.join(VERIF, 'lib', 'frozen', 'lfu_base.h.v1')) if (p == lb and not uses_lb) else file_bytes(p))
         h.update(b'\0')
     return h.hexdigest()[:20]
 
